@@ -50,6 +50,7 @@ func (p *Prog) lookupIfaceContract(recv types.Type, method string) (*FuncContrac
 
 func (fr *Frame) call(c *ssa.CallCommon, instr ssa.Instruction, st *State, reach Term) Val {
 	vc := fr.vc
+	fr.curReach = reach
 	if c.IsInvoke() {
 		recv := fr.val(c.Value, st)
 		var args []Val
@@ -329,6 +330,9 @@ func (fr *Frame) bindParams(env *SpecEnv) {
 // havocAll forgets the whole heap (used for calls without a contract).
 func (fr *Frame) havocAll(st *State) {
 	vc := fr.vc
+	if vc.mods != nil {
+		fr.oblige("writes", fr.curReachOrTrue(), tFalse, "call without a contract may write anywhere: not covered by the modifies clause")
+	}
 	var keys []string
 	for k := range vc.entrySorts {
 		keys = append(keys, k)
@@ -421,6 +425,7 @@ func (fr *Frame) applyContract(site string, sig *types.Signature, callee *ssa.Fu
 		fr.havocAll(st)
 	} else {
 		for _, m := range fc.Modifies {
+			fr.curReach = reach
 			fr.havocLvalue(env, m.Expr, st)
 		}
 		if !fc.Pure {
@@ -502,6 +507,7 @@ func (fr *Frame) havocLvalue(env *SpecEnv, e ast.Expr, st *State) {
 					key := vc.memKey(m.Elem, l.Name)
 					s := SArr(SInt, SArr(enc.Idx(), l.Sort))
 					arr := vc.heapGet(st, key, s)
+					fr.checkWrite(key, m.Base, fr.curReach)
 					nv := vc.sc.Def(key, mkStore(arr, m.Base, vc.declHeap(key+"@", SArr(enc.Idx(), l.Sort))))
 					vc.prov[nv.S] = provInfo{kind: 0, parent: arr.S, ref: m.Base}
 					vc.heapSet(st, key, nv)
@@ -514,6 +520,7 @@ func (fr *Frame) havocLvalue(env *SpecEnv, e ast.Expr, st *State) {
 				key := "H|ghost|" + sf.Name + "|v"
 				s := SArr(SInt, enc.scalarSort(rt))
 				arr := vc.heapGet(st, key, s)
+				fr.checkWrite(key, p.L[0], fr.curReach)
 				nv := vc.sc.Def(key, mkStore(arr, p.L[0], vc.declHeap(key+"@", enc.scalarSort(rt))))
 				vc.prov[nv.S] = provInfo{kind: 0, parent: arr.S, ref: p.L[0]}
 				vc.heapSet(st, key, nv)
@@ -571,9 +578,12 @@ func (fr *Frame) havocField(st *State, stT types.Type, i int, ref Term) {
 		fr.havocObj(st, ft, vc.subRef(stT, i, ref))
 		return
 	}
-	for _, l := range enc.Leaves(ft) {
+	for li, l := range enc.Leaves(ft) {
 		key := vc.fieldKey(stT, i, l.Name)
 		arr := vc.heapGet(st, key, SArr(SInt, l.Sort))
+		if li == 0 {
+			fr.checkWrite(key, ref, fr.curReach)
+		}
 		nv := vc.sc.Def(key, mkStore(arr, ref, vc.declHeap(key+"@", l.Sort)))
 		vc.prov[nv.S] = provInfo{kind: 0, parent: arr.S, ref: ref}
 		vc.heapSet(st, key, nv)
@@ -595,17 +605,23 @@ func (fr *Frame) havocObj(st *State, t types.Type, ref Term) {
 		if isAggregate(u.Elem()) {
 			vc.unsupportedf("havoc of array of aggregates")
 		}
-		for _, l := range enc.Leaves(u.Elem()) {
+		for li, l := range enc.Leaves(u.Elem()) {
 			key := vc.memKey(u.Elem(), l.Name)
 			arr := vc.heapGet(st, key, SArr(SInt, SArr(enc.Idx(), l.Sort)))
+			if li == 0 {
+				fr.checkWrite(key, ref, fr.curReach)
+			}
 			nv := vc.sc.Def(key, mkStore(arr, ref, vc.declHeap(key+"@", SArr(enc.Idx(), l.Sort))))
 			vc.prov[nv.S] = provInfo{kind: 0, parent: arr.S, ref: ref}
 			vc.heapSet(st, key, nv)
 		}
 	default:
-		for _, l := range enc.Leaves(t) {
+		for li, l := range enc.Leaves(t) {
 			key := vc.cellKey(t, l.Name)
 			arr := vc.heapGet(st, key, SArr(SInt, l.Sort))
+			if li == 0 {
+				fr.checkWrite(key, ref, fr.curReach)
+			}
 			nv := vc.sc.Def(key, mkStore(arr, ref, vc.declHeap(key+"@", l.Sort)))
 			vc.prov[nv.S] = provInfo{kind: 0, parent: arr.S, ref: ref}
 			vc.heapSet(st, key, nv)
@@ -706,6 +722,9 @@ func (fr *Frame) appendBuiltin(c *ssa.CallCommon, args []Val, st *State, reach T
 	vc.sc.Assume(mkAnd(enc.idxLe(newLen, ncap), enc.idxLe(ncap, enc.idxLit(1<<62))), "capacity after growth")
 	vc.sc.Assume(enc.idxLe(newLen, enc.idxLit(1<<62)), "slices stay below 2^62 elements")
 	rbase := vc.sc.Def("rbase", mkIte(inPlace, dst.Base(), fresh))
+	if !isAggregate(et) {
+		fr.checkWrite(vc.memKey(et, enc.Leaves(et)[0].Name), rbase, mkAnd(reach, app(SBool, ">", n, enc.idxLit(0))))
+	}
 	roff := vc.sc.Def("roff", mkIte(inPlace, dst.Off(), enc.idxLit(0)))
 	rcap := vc.sc.Def("rcap", mkIte(inPlace, dst.Cap(), ncap))
 	if isAggregate(et) {
@@ -780,6 +799,7 @@ func (fr *Frame) copyBuiltin(c *ssa.CallCommon, args []Val, st *State, reach Ter
 	if isAggregate(et) {
 		vc.unsupportedf("copy of aggregate elements")
 	}
+	fr.checkWrite(vc.memKey(et, enc.Leaves(et)[0].Name), dst.Base(), mkAnd(reach, app(SBool, ">", n, enc.idxLit(0))))
 	for _, l := range enc.Leaves(et) {
 		key := vc.memKey(et, l.Name)
 		s := SArr(SInt, SArr(enc.Idx(), l.Sort))
@@ -890,4 +910,12 @@ func (fr *Frame) dispatchCall(c *ssa.CallCommon, cands []*ssa.Function, args []V
 		}
 	}
 	return acc
+}
+
+
+func (fr *Frame) curReachOrTrue() Term {
+	if fr.curReach.S == "" {
+		return tTrue
+	}
+	return fr.curReach
 }
